@@ -94,6 +94,13 @@ impl Builtins {
         Ok(contents.into())
     }
 
+    fn get_file_as_bytes(&self, path: &str) -> Result<Vec<u8>, Error> {
+        let mut f = File::open(path)?;
+        let mut contents = Vec::new();
+        f.read_to_end(&mut contents)?;
+        Ok(contents)
+    }
+
     fn import<O, E>(
         &mut self,
         stack: &mut Vec<(Rc<Value>, Position)>,
@@ -203,15 +210,10 @@ impl Builtins {
             stack.push((
                 Rc::new(match env.borrow().importer_registry.get_importer(&typ) {
                     Some(importer) => {
-                        let contents = self.get_file_as_string(&path)?;
-                        if contents.is_empty() {
-                            eprintln!("including an empty file. Use NULL as the result");
-                            P(Empty)
-                        } else {
-                            match importer.import(contents.as_bytes()) {
-                                Ok(v) => v.into(),
-                                Err(e) => return Err(Error::new(format!("{}", e).into(), pos)),
-                            }
+                        let contents = self.get_file_as_bytes(&path)?;
+                        match importer.import(&contents) {
+                            Ok(v) => v.into(),
+                            Err(e) => return Err(Error::new(format!("{}", e).into(), pos)),
                         }
                     }
                     None => {
